@@ -604,7 +604,7 @@ impl Generator {
             }
         }
         // Faults that name a glyph (`...#g<id>`): aim some of the per-glyph ops at that glyph.
-        let focus_gids: Vec<u16> = trace
+        let mut focus_gids: Vec<u16> = trace
             .faults
             .iter()
             .filter_map(|f| match f {
@@ -614,6 +614,12 @@ impl Generator {
                 _ => None,
             })
             .collect();
+        // ... and surgeries that are about particular glyphs
+        for sgy in &trace.surgery {
+            if let Surgery::InstallCff2Subrs { glyphs, .. } = sgy {
+                focus_gids.extend(glyphs.iter().copied().filter(|g| *g < info.num_glyphs));
+            }
+        }
         if !focus_gids.is_empty() {
             for op in trace.ops.iter_mut() {
                 let g = *rng.pick(&focus_gids);
@@ -1540,6 +1546,12 @@ fn gen_install(rng: &mut Rng, info: &FontInfo, prop: &str) -> Option<(FontInfo, 
         "C09" => 0,
         _ => 15,
     };
+    let p_cff2_subrs = match prop {
+        "C02" => 0,
+        "C03" => 15,
+        "C09" => 45,
+        _ => 30,
+    };
     let mut surgeries = Vec::new();
     let mut focus: Option<Vec<u32>> = None;
     let want_vargpos = info.axes > 0 && rng.pct(p_vargpos);
@@ -1629,6 +1641,16 @@ fn gen_install(rng: &mut Rng, info: &FontInfo, prop: &str) -> Option<(FontInfo, 
             chars.sort_unstable();
             focus = Some(chars);
         }
+    }
+    if info.has("CFF2") && rng.pct(p_cff2_subrs) {
+        let n = 1 + rng.usize_below(12);
+        let glyphs: Vec<u16> = (0..n)
+            .map(|_| if rng.pct(60) { rng.below(u64::from(info.num_glyphs.min(64).max(1))) as u16 } else { gen_gid(rng, info) })
+            .collect();
+        surgeries.push(Surgery::InstallCff2Subrs {
+            glyphs,
+            nest: *rng.pick(&[0u8, 0, 1, 2, 8]),
+        });
     }
     if rng.pct(p_bitmap) && info.num_glyphs >= 1 && info.has("glyf") {
         let colour = rng.pct(50);
